@@ -43,7 +43,14 @@ pub struct CmpInfo {
 
 pub fn compare(model: &RefLexer, real: &RealLexer, input: &str) -> Result<CmpInfo, (String, String, Value, Value)> {
     let want = model.run(input);
-    let got = real.run(input);
+    // Where the reference stops because the longest match is empty, the real
+    // lexer is only asked about the text before that offset (same tokens:
+    // every earlier match ends at or before it) - a lexer that spins on an
+    // empty match must not be able to hang this check.
+    let got = match want.end {
+        RefEnd::Empty(pos) => real.run(&input[..pos]),
+        _ => real.run(input),
+    };
     let name_of = |k: usize| real.ex.terminal_of(k).map(|s| s.to_string()).unwrap_or_else(|| format!("<pattern #{k} has no terminal>"));
     let got_named: Vec<(String, usize, usize)> = got.toks.iter().map(|(k, lo, hi)| (name_of(*k), *lo, *hi)).collect();
     let exp_json = json!({"tokens": want.toks, "end": format!("{:?}", want.end)});
@@ -186,7 +193,7 @@ fn spec_classes(spec: &LexSpec, pool: &str, tl: &mut Tally) {
 }
 
 /// Evaluate one grammar text + model on a list of inputs.
-fn eval_grammar(cli: &Path, dir: &Path, text: &str, model_json: &Value, inputs: &[String], tape_hex: &str, tl: &mut Tally) {
+fn eval_grammar(cli: &Path, dir: &Path, text: &str, model_json: &Value, inputs: &[String], tape_hex: &str, template: Option<&str>, tl: &mut Tally) {
     let out = run_lalrpop(cli, dir, text);
     let rs = match out {
         LalrOut::Accepted(rs) => rs,
@@ -213,6 +220,7 @@ fn eval_grammar(cli: &Path, dir: &Path, text: &str, model_json: &Value, inputs: 
             "tape_hex": tape_hex,
             "grammars": [{"name": "g.lalrpop", "text": text}],
             "model": model_json,
+            "template": template,
             "input": input,
             "expected": expected,
             "observed": observed,
@@ -267,7 +275,13 @@ fn eval_grammar(cli: &Path, dir: &Path, text: &str, model_json: &Value, inputs: 
                 }
             }
             Err((sig, what, exp, obs)) => {
-                tl.violation(&sig, &format!("{what}; input {input:?}"), base(input, exp, obs));
+                // directed templates carry their own root-cause key
+                let sig = match template {
+                    Some(t) => format!("C09/{t}/{}", sig.trim_start_matches("C09/").replace('/', "-")),
+                    None => sig,
+                };
+                let shown: String = if input.len() > 80 { format!("{:?}.. ({} bytes)", &input[..60], input.len()) } else { format!("{input:?}") };
+                tl.violation(&sig, &format!("{what}; input {shown}"), base(input, exp, obs));
             }
         }
     }
@@ -279,7 +293,51 @@ fn eval_tape(ctx: &Ctx, idx: usize, tape: &[u8], n_inputs: usize) -> Tally {
     spec_classes(&case.spec, case.pool, &mut tl);
     let dir = ctx.work.join(format!("g{idx}"));
     let text = case.spec.to_lalrpop();
-    eval_grammar(&ctx.cli, &dir, &text, &case.spec.model_json(), &case.inputs, &tape::hex(tape), &mut tl);
+    eval_grammar(&ctx.cli, &dir, &text, &case.spec.model_json(), &case.inputs, &tape::hex(tape), None, &mut tl);
+    let _ = std::fs::remove_dir_all(&dir);
+    tl
+}
+
+/// Directed family outside the random domain (DESIGN Appendix C keeps
+/// generated regexes small): one terminal whose DFA has 2^(n+1) states and a
+/// long input that visits most of them, so that the runtime's lazy DFA has
+/// to clear its cache in the middle of lexing. The long a/b run is expanded
+/// from the tape by a xorshift generator (a pure function of the tape).
+fn big_dfa_case(tape: &[u8]) -> (LexSpec, String) {
+    let mut t = Tape::new(tape);
+    let n = 12 + t.below(2);
+    let len = 20_000 + 5_000 * t.below(4);
+    let mut x: u64 = 0x9e3779b97f4a7c15;
+    for _ in 0..8 {
+        x = (x << 8) ^ (t.byte() as u64) ^ (x >> 56);
+    }
+    x |= 1;
+    let mut bytes = Vec::with_capacity(len + 8);
+    for _ in 0..len {
+        x ^= x << 13;
+        x ^= x >> 7;
+        x ^= x << 17;
+        bytes.push(if x & 1 == 0 { b'a' } else { b'b' });
+    }
+    // the whole run is one token: its (n+1)-th character from the end is `a`
+    bytes[len - n - 1] = b'a';
+    let mut input = String::from_utf8(bytes).unwrap();
+    input.push_str(" c c\nc");
+    let spec = LexSpec {
+        rungs: None,
+        extra: vec![Pat::Re(format!("[ab]*a[ab]{{{n}}}")), Pat::Lit("c".into())],
+        unused: vec![],
+        style: 0,
+    };
+    (spec, input)
+}
+
+fn eval_big_dfa(ctx: &Ctx, idx: usize, tape: &[u8]) -> Tally {
+    let mut tl = Tally::default();
+    let (spec, input) = big_dfa_case(tape);
+    tl.class("template_large_dfa");
+    let dir = ctx.work.join(format!("big{idx}"));
+    eval_grammar(&ctx.cli, &dir, &spec.to_lalrpop(), &spec.model_json(), &[input], &tape::hex(tape), Some("large-dfa"), &mut tl);
     let _ = std::fs::remove_dir_all(&dir);
     tl
 }
@@ -289,8 +347,10 @@ fn replay_case(ck: &mut Checker, v: &Value) {
     let input = v["input"].as_str().unwrap_or("").to_string();
     let mut tl = Tally::default();
     let dir = ck.ctx.work.join("replay_run");
-    eval_grammar(&ck.ctx.cli, &dir, &text, &v["model"], &[input], v["tape_hex"].as_str().unwrap_or(""), &mut tl);
+    let cli = ck.ctx.cli.clone();
+    eval_grammar(&cli, &dir, &text, &v["model"], &[input], v["tape_hex"].as_str().unwrap_or(""), v["template"].as_str(), &mut tl);
     tl.skips.clear();
+    tl.samples.clear();
     tl.merge(ck);
 }
 
@@ -329,6 +389,11 @@ pub fn run(ctx: Ctx, replay: Option<PathBuf>) -> i32 {
         for sig in tl.merge(&mut ck) {
             to_shrink.push((sig, i));
         }
+    }
+    // directed template: lexers whose DFA does not fit the runtime's cache
+    let big = tape::sample_tapes(ctx.seed ^ 0xb16, ctx.tier.pick(3, 24), 12, 12);
+    for tl in par_map(&big, ctx.threads, |i, t| eval_big_dfa(&ctx, i, t)) {
+        tl.merge(&mut ck);
     }
     // minimise the first failing tape of each new signature
     for (sig, i) in to_shrink {
